@@ -4,6 +4,8 @@ import RV.C03.ListLemmas
 import RV.C03.LayoutLemmas
 import RV.C03.PreLemmas
 import RV.C03.ChoiceLemmas
+import RV.C03.ChoiceTops
+import RV.C03.NTDocLemmas
 import RV.C03.NTLineLemmas
 import RV.C03.BaseRelLemmas
 import RV.C03.RefSplitLemmas
@@ -51,6 +53,18 @@ def Statement_map_writer_roundtrip : Prop :=
 def Statement_long_writer_roundtrip : Prop :=
   ∀ (m : List (Char × Str)), mapOK [bs] m = true →
     ∀ s : Str, decLongBody dq (encLong m s ++ [dq, dq, dq]) = some s
+
+/-- `nt_doc_roundtrip`: a whole N-Triples document.  For every list of triples (subjects: IRIs / plain blank-node
+    labels, IRI predicates, any object incl. literals with ANY lexical form) the reader — every line through the W3C
+    line grammar, blank-node labels through the per-document table that gives a label met for the first time a FRESH
+    node and later occurrences the same node — returns exactly the triples written with every label `l` replaced by
+    the reader's node `posOf fin l`; all labels of the document are in the final table `fin`, and the replacement is
+    injective on it: the parsed graph equals the written one up to a renaming of blank nodes. -/
+def Statement_nt_doc_roundtrip : Prop :=
+  ∀ ts : List (NTerm × NTerm × NTerm), (∀ t ∈ ts, TripleWf t) →
+    ∃ fin, readDoc [] (ntDoc ts) = some (fin, ts.map (relabelTr (posOf fin))) ∧
+      (∀ l ∈ docLabels ts, l ∈ fin) ∧
+      (∀ a ∈ fin, ∀ b ∈ fin, posOf fin a = posOf fin b → a = b)
 
 /-! ### Statements — numeric / boolean shorthand -/
 
@@ -121,6 +135,17 @@ example : mapOK [dq, bs, lf, cr] [('\\', ['\\', '\\']), ('\n', ['\\', '\\', 'n']
 example : mapOK [dq, bs, lf, cr] [('\\', ['\\', '\\']), ('\n', ['\\', 'n']), ('\r', ['\\', 'r'])] = false := by decide
 
 theorem nt_line_roundtrip : Statement_nt_line_roundtrip := fun s p o hs hp ho => nt_line_roundtrip' s p o hs hp ho
+
+theorem nt_doc_roundtrip : Statement_nt_doc_roundtrip := by
+  intro ts hwf
+  obtain ⟨fin, _, hdoc, hlab⟩ := readDoc_ntDoc ts hwf []
+  exact ⟨fin, hdoc, hlab, fun a ha b hb h => posOf_inj fin a b ha hb h⟩
+
+/-- non-vacuity: `_:b <p> _:a . _:a <p> _:b . _:c <p> "x" .` — labels get nodes 0, 1, 2 in order of first occurrence -/
+example : readDoc [] (ntDoc [(.bnode ['b'], .iri ['p'], .bnode ['a']), (.bnode ['a'], .iri ['p'], .bnode ['b']),
+      (.bnode ['c'], .iri ['p'], .lit ['x'] none none)]) =
+    some ([['b'], ['a'], ['c']], [(.bnode 0, .iri ['p'], .bnode 1), (.bnode 1, .iri ['p'], .bnode 0),
+      (.bnode 2, .iri ['p'], .lit ['x'] none none)]) := by decide +kernel
 
 theorem shorthand_relex : Statement_shorthand_relex := fun _ _ h => tokenOk_relex h
 
@@ -442,6 +467,39 @@ theorem rdflib_layout_roundtrip : Statement_rdflib_layout_roundtrip := by
 
 theorem orderSubjects_complete : Statement_orderSubjects_complete :=
   fun g ord => ⟨nodup_orderSubjects g ord, mem_orderSubjects g ord⟩
+
+/-- `choice_tops`: the top-level statements the writer model writes (`statement` calls that were not skipped by
+    `isDone`) have pairwise distinct subjects, and these are exactly the subjects of the graph that were not hidden —
+    the very statement subjects of `layout g (hiddenIds …)`; a statement starts with `[]` (`s_squared`) exactly when its
+    subject is an unreferenced blank node.  So nothing is written twice and no subject is left out. -/
+def Statement_choice_tops : Prop :=
+  ∀ (g : Graph) (ord : List Nat), g.Nodup → (∀ t ∈ g, origOnly t.1 ∧ origOnly t.2.2) →
+    (topsOf (choice g ord)).Nodup ∧
+    (∀ s, s ∈ topsOf (choice g ord) ↔ s ∈ topSubjects g (hiddenIds (choice g ord))) ∧
+    (∀ e ∈ (choice g ord).2, e.2 = topAnon g e.1)
+
+theorem choice_tops : Statement_choice_tops := by
+  intro g ord hnd ho
+  have hO := choiceOn_oinv g (orderSubjects g ord)
+  have hC := choiceOn_inv hnd (orderSubjects g ord)
+  refine ⟨hO.nodup, ?_, hO.flags⟩
+  intro s
+  show s ∈ topsOf (choiceOn g (orderSubjects g ord)) ↔ _
+  rw [mem_tops_choiceOn, mem_orderSubjects, mem_top]
+  constructor
+  · rintro ⟨⟨p, o, hm⟩, hn⟩
+    refine ⟨⟨p, o, hm⟩, ?_⟩
+    cases hi : inl (hiddenIds (choice g ord)) s with
+    | false => rfl
+    | true => exact absurd ((inl_hidden ho hC (ho _ hm).1).mp hi) hn
+  · rintro ⟨⟨p, o, hm⟩, hi⟩
+    refine ⟨⟨p, o, hm⟩, ?_⟩
+    intro hh
+    have := (inl_hidden ho hC (ho _ hm).1).mpr hh
+    have hi' : inl (hiddenIds (choice g ord)) s = false := hi
+    rw [show hiddenIds (choice g ord) = (choiceOn g (orderSubjects g ord)).1.2.map origId from rfl] at hi'
+    rw [this] at hi'
+    exact absurd hi' (by simp)
 
 /-- non-vacuity.  `nested` (above): both nested nodes are hidden.  `twoCycle`: `_:1 p _:2 . _:2 p _:1` with no
     other entry point — the writer labels the one it starts with and hides the other (no cycle of hidden nodes).
